@@ -1060,6 +1060,10 @@ int ov_halfrate(OggVorbis_File *vf,int flag){
     if(vf->pcm_offset>=0){
       ogg_int64_t pos=vf->pcm_offset;
       vf->pcm_offset=-1; /* make sure the pos is dumped if unseekable */
+      /* a half-rate sample counts for two: read to the end of an
+         odd-length stream and the position stands one past the
+         total, which the seek would refuse */
+      if(vf->seekable && pos>ov_pcm_total(vf,-1))pos=ov_pcm_total(vf,-1);
       ov_pcm_seek(vf,pos);
     }
   }
